@@ -249,6 +249,28 @@ def build_harness(P, result):
                 if g != labs:
                     result["broken"].append({"kind": "correspondence", "what": f"atomic-operation sites of {fn} differ from the sequence the model mirrors",
                                              "detail": f"expected {labs} got {g}"})
+    # optional build-time gates: P.REWRITE = [{"file": rel, "before": "<exact source text>", "insert": "<Go text>"}]
+    # puts `insert` in front of the single occurrence of `before` in a copy of the file (nothing is written to /repo).
+    # A missing or ambiguous anchor means the code path the scenario gates was rewritten: broken correspondence.
+    for k, rw in enumerate(getattr(P, "REWRITE", [])):
+        rel = rw["file"]
+        key = os.path.join(REPO, rel)
+        src = replace.get(key, key)
+        try:
+            txt = open(src).read()
+        except OSError as e:
+            result["broken"].append({"kind": "correspondence", "what": f"rewrite: cannot read {rel}", "detail": str(e)})
+            return None
+        if txt.count(rw["before"]) != 1:
+            result["broken"].append({"kind": "correspondence", "what": f"rewrite: the statement the gate goes in front of occurs {txt.count(rw['before'])} times in {rel} (expected once): the spawn path the scenario holds was rewritten",
+                                     "detail": rw["before"].strip()})
+            return None
+        outdir = os.path.join(BUILD, "inst_" + P.ID)
+        os.makedirs(outdir, exist_ok=True)
+        dst = os.path.join(outdir, rel.replace("/", "__") + f".rw{k}.go")
+        with open(dst, "w") as f:
+            f.write(txt.replace(rw["before"], rw["insert"] + rw["before"]))
+        replace[key] = dst
     ov = os.path.join(BUILD, f"overlay_{P.ID}.json")
     with open(ov, "w") as f:
         json.dump({"Replace": replace}, f, indent=1)
